@@ -332,6 +332,39 @@ func siteMatches(p *Program, pat string, in ssa.Instruction) (string, bool) {
 			return "", false
 		}
 		return "lookup of " + valuePath(lk.Index) + " in " + valuePath(lk.X), true
+	case "load":
+		// `load T.f`: a read of field f of a struct of named type T (by value or through a pointer)
+		var st types.Type
+		var idx int
+		switch v := in.(type) {
+		case *ssa.Field:
+			st, idx = v.X.Type(), v.Field
+		case *ssa.FieldAddr:
+			read := false
+			for _, r := range *v.Referrers() {
+				if u, ok := r.(*ssa.UnOp); ok && u.Op == token.MUL {
+					read = true
+				}
+			}
+			if !read {
+				return "", false
+			}
+			st, idx = v.X.Type().Underlying().(*types.Pointer).Elem(), v.Field
+		default:
+			return "", false
+		}
+		n, ok := st.(*types.Named)
+		if !ok {
+			return "", false
+		}
+		sty, ok := n.Underlying().(*types.Struct)
+		if !ok {
+			return "", false
+		}
+		if n.Obj().Name()+"."+sty.Field(idx).Name() != f[1] {
+			return "", false
+		}
+		return "read of " + f[1], true
 	case "alloc":
 		a, ok := in.(*ssa.Alloc)
 		if !ok {
